@@ -1,0 +1,42 @@
+//go:build verif
+// +build verif
+
+package leaves
+
+// Verification hooks for property C01 (burndown conservation / correspondence with the line model).
+// Add-only, read-only accessors on *BurndownAnalysis.  The returned maps are the live ones: callers
+// must not modify them.
+
+// VerifC01Global returns the sparse global history.
+func VerifC01Global(a *BurndownAnalysis) map[int]map[int]int64 {
+	return a.globalHistory
+}
+
+// VerifC01FileHist returns the sparse per-file histories.
+func VerifC01FileHist(a *BurndownAnalysis) map[string]map[int]map[int]int64 {
+	return a.fileHistories
+}
+
+// VerifC01PeopleHist returns the sparse per-developer histories.
+func VerifC01PeopleHist(a *BurndownAnalysis) []map[int]map[int]int64 {
+	return a.peopleHistories
+}
+
+// VerifC01Matrix returns the sparse interaction matrix.
+func VerifC01Matrix(a *BurndownAnalysis) []map[int]int64 {
+	return a.matrix
+}
+
+// VerifC01Files returns, for every tracked file, the per-line values.
+func VerifC01Files(a *BurndownAnalysis) map[string][]int {
+	VerifC01res := make(map[string][]int, len(a.files))
+	for VerifC01key, VerifC01file := range a.files {
+		VerifC01res[VerifC01key] = VerifC01file.VerifFlatten()
+	}
+	return VerifC01res
+}
+
+// VerifC01PeopleNumber returns the configured number of developers.
+func VerifC01PeopleNumber(a *BurndownAnalysis) int {
+	return a.PeopleNumber
+}
